@@ -92,7 +92,7 @@ def _d(seed, label):
     return int.from_bytes(hashlib.sha256(b"c19/%d/%s" % (seed, label.encode())).digest(), "big") % (M.N - 2) + 1
 
 
-OPS = ["sm2_keygen", "sm2_sign", "sm2_sign_ctx", "sm2_decrypt", "sm2_decrypt_bad", "sm2_ecdh", "sm2_import_der", "sm2_import_bad", "sm2_import_mismatch", "tls_ctx_keys", "tls_ctx_keys", "hex_key_bad", "tlcp_cke_badlen", "tlcp_cke_badlen",
+OPS = ["sm2_keygen", "sm2_sign", "sm2_sign_ctx", "sm2_decrypt", "sm2_decrypt_bad", "sm2_ecdh", "sm2_import_der", "sm2_import_bad", "sm2_import_mismatch", "pem_key_damaged", "pem_key_damaged", "tls_ctx_keys", "tls_ctx_keys", "hex_key_bad", "tlcp_cke_badlen", "tlcp_cke_badlen",
        "pkcs8_open", "pkcs8_wrong_password", "sm9_sign", "sm9_decrypt", "sm9_keygen",
        "hs_tlcp", "hs_tls12", "hs_tls13", "hs_tlcp_mutual", "hs_tls12_mutual", "hs_tls13_mutual",
        "hs_tlcp_untrusted", "hs_tls12_untrusted", "hs_tls13_untrusted", "hs_tls12_badclient",
@@ -352,6 +352,38 @@ def ops(case, ctx):
                         dll.vh_fclose(fp)
                     if r == 1:
                         ctx.note("mismatch-imported")      # C12's business; the error path was not reached in this case
+                elif op == "pem_key_damaged":
+                    # an unencrypted private key PEM file (EC PRIVATE KEY / PKCS#8 PRIVATE KEY) with one damaged place in its body: a character
+                    # outside the base64 alphabet, padding in the middle, a deleted character, a cut line, a wrong footer
+                    form = seed % 2
+                    ooc = b"\x04" + M.i2b(pub[0]) + M.i2b(pub[1])
+                    der = D.enc_ec_private_key(M.i2b(d), ooc) if form == 0 else D.enc_pkcs8(M.i2b(d), ooc)
+                    label = b"EC PRIVATE KEY" if form == 0 else b"PRIVATE KEY"
+                    body = bytearray(base64.b64encode(der))
+                    pos = (seed >> 1) % len(body)
+                    kind = (seed >> 9) % 6
+                    if kind == 0:
+                        body[pos] = b"*! \x01\x7f~"[(seed >> 12) % 6]
+                    elif kind == 1:
+                        body[pos] = ord("=")
+                    elif kind == 2:
+                        del body[pos]
+                    elif kind == 3:
+                        body = body[:pos]
+                    elif kind == 4:
+                        body[pos:pos] = b"\r"
+                    lines = b"\n".join(bytes(body[i:i + 64]) for i in range(0, len(body), 64))
+                    foot = label if kind != 5 else b"PUBLIC KEY"
+                    pem = b"-----BEGIN " + label + b"-----\n" + lines + b"\n-----END " + foot + b"-----\n"
+                    path = os.path.join(B.BUILD, "tmp", "c19_%d_dkey.pem" % os.getpid())
+                    open(path, "wb").write(pem)
+                    dll = helper()[0]
+                    fp = dll.vh_fopen(path.encode(), b"r")
+                    k = obj("SM2_KEY")
+                    r = (l.sm2_private_key_from_pem if form == 0 else l.sm2_private_key_info_from_pem)(k, fp)
+                    dll.vh_fclose(fp)
+                    os.unlink(path)
+                    ctx.note("damaged-pem-" + ("imported" if r == 1 else "refused"))
                 elif op == "tlcp_cke_badlen":
                     # a TLCP client (scripted, vlib/peer12.py) whose ClientKeyExchange wraps a value that is not 48 bytes long under the server's
                     # encryption certificate: the server decrypts it with its private key before it can refuse it
